@@ -344,6 +344,7 @@ func (cc *checkCtx) finishEvidence(ev *Evidence) {
 func (cc *checkCtx) propertySpecific() {
 	cc.runLemmas()
 	cc.runAccessScans()
+	cc.runLockScan()
 	cc.runBounded()
 	if cc.prop == "C03" {
 		cc.runNondetScan()
@@ -616,6 +617,89 @@ func (cc *checkCtx) runAccessScans() {
 	}
 }
 
+// runLockScan (C16): a method of a type with mutex-guarded fields enters at most ONE critical section. The contracts are
+// sequential (each call is judged from its own entry state), so "check under the read lock, release, act under the write
+// lock" satisfies them while losing atomicity; the scan counts the acquisition sites of each method - direct
+// Lock/RLock calls on a sync.RWMutex plus calls to methods of the same type that acquire the lock themselves.
+func (cc *checkCtx) runLockScan() {
+	if cc.prop != "C16" {
+		return
+	}
+	e := cc.e
+	guardedTypes := map[string]bool{}
+	for k := range e.db.Guarded {
+		if i := strings.LastIndex(k, "."); i > 0 {
+			guardedTypes[k[:i]] = true
+		}
+	}
+	recvType := func(fn *ssa.Function) string {
+		if fn.Signature.Recv() == nil {
+			return ""
+		}
+		t := fn.Signature.Recv().Type()
+		if p, ok := t.Underlying().(*types.Pointer); ok {
+			t = p.Elem()
+		}
+		return typeKey(t)
+	}
+	isAcquire := func(c *ssa.CallCommon) bool {
+		f := c.StaticCallee()
+		if f == nil || f.Signature.Recv() == nil {
+			return false
+		}
+		return (f.Name() == "Lock" || f.Name() == "RLock") && strings.Contains(f.Signature.Recv().Type().String(), "sync.RWMutex")
+	}
+	lockers := map[*ssa.Function]bool{}
+	var methods []*ssa.Function
+	for _, fn := range e.allFuncs {
+		if !e.inRepo(fn) || fn.Blocks == nil || !guardedTypes[recvType(fn)] {
+			continue
+		}
+		methods = append(methods, fn)
+		for _, b := range fn.Blocks {
+			for _, ins := range b.Instrs {
+				if ci, ok := ins.(ssa.CallInstruction); ok && isAcquire(ci.Common()) {
+					lockers[fn] = true
+				}
+			}
+		}
+	}
+	sort.Slice(methods, func(i, j int) bool { return e.keyOf(methods[i]) < e.keyOf(methods[j]) })
+	bad := 0
+	for _, fn := range methods {
+		n := 0
+		pos := ""
+		for _, b := range fn.Blocks {
+			for _, ins := range b.Instrs {
+				ci, ok := ins.(ssa.CallInstruction)
+				if !ok {
+					continue
+				}
+				if _, isDefer := ins.(*ssa.Defer); isDefer {
+					continue
+				}
+				c := ci.Common()
+				if isAcquire(c) {
+					n++
+					pos = cc.posOfIns(ins)
+				} else if f := c.StaticCallee(); f != nil && lockers[f] && recvType(f) == recvType(fn) {
+					n++
+					pos = cc.posOfIns(ins)
+				}
+			}
+		}
+		if n > 1 {
+			bad++
+			cc.extra = append(cc.extra, &Obligation{Name: "scan:single-critical-section#" + e.keyOf(fn), Kind: "scan", Tags: []string{"C16"}, Fn: "scan", Result: "sat", Solver: "ssa-scan",
+				Desc: fmt.Sprintf("%s acquires the collection's mutex at %d sites (check-then-act over two critical sections is not atomic)", e.keyOf(fn), n), Pos: pos})
+		}
+	}
+	if bad == 0 {
+		cc.extra = append(cc.extra, &Obligation{Name: "scan:single-critical-section", Kind: "scan", Tags: []string{"C16"}, Fn: "scan", Result: "unsat", Solver: "ssa-scan",
+			Desc: fmt.Sprintf("%d methods of mutex-guarded types, each with at most one lock acquisition site", len(methods))})
+	}
+}
+
 func (cc *checkCtx) posOfIns(ins ssa.Instruction) string {
 	p := ins.Pos()
 	if !p.IsValid() {
@@ -839,7 +923,13 @@ func mapRangeOnlyCollectsKeys(rg *ssa.Range) string {
 		for _, ins := range b.Instrs {
 			if c, ok := ins.(*ssa.Call); ok {
 				if f := c.Call.StaticCallee(); f != nil && f.Pkg != nil && f.Pkg.Pkg.Path() == "sort" {
-					sorted = true
+					switch f.Name() {
+					case "Strings", "Ints", "Float64s":
+						// a total order in which equal keys are identical: the result does not depend on the input order
+						sorted = true
+					default:
+						return "keys are ordered by sort." + f.Name() + " with a caller-supplied comparison, which is not shown to be a total order (equal-comparing keys would keep map order)"
+					}
 				}
 			}
 		}
